@@ -68,17 +68,29 @@ def scripted(f, chars, peeks=None, env=None, max_adv=None, stop_at_lexer_calls=T
             if isinstance(v, absint.Enum):
                 return absint.Enum(0 if v.variant == 0 else 1, v.fields)
             return None
-        if n.startswith("parser::lexer::Lexer::") and stop_at_lexer_calls:
-            events.append(("call", n.rsplit("::", 1)[-1]))
-            return ("__stop__",)
-        if n.startswith("parser::lexer::is_identifier_initial"):
-            v = absint.operand(e, tt["args"][0])
-            g = oracle.fb.find("parser::lexer::is_identifier_initial")
+        g = oracle.fb.by_path(n) if n.startswith("parser::lexer::") else None
+        takes_lexer = g is not None and g.arg_count >= 1 and "Lexer<" in (g.local_ty(1) or "")
+        if g is not None and not takes_lexer:
+            # a pure helper of the lexer module (character predicate, escape table, position arithmetic): follow it
+            args = [absint.operand(e, a) for a in tt["args"]]
             try:
-                k, b2, e2 = absint.run_fragment(g, 0, {1: v}, oracle=lambda *a: None)
+                k, b2, e2 = absint.run_fragment(g, 0, {i + 1: v for i, v in enumerate(args)}, oracle=oracle, max_visits=2)
                 return e2.get(0)
             except (absint.Stuck, absint.Loop):
                 return None
+        if n.startswith("parser::lexer::Lexer::") and stop_at_lexer_calls:
+            events.append(("call", n.rsplit("::", 1)[-1]))
+            return ("__stop__",)
+        # std combinators (Option / Result / comparisons): the shared models of machine.py
+        from . import machine
+        if not hasattr(scripted, "_mc") or scripted._mc.fb is not oracle.fb:
+            scripted._mc = machine.Machine(oracle.fb, inline=lambda name: False)
+        try:
+            r = scripted._mc._model(n, [absint.deref(absint.operand(e, a)) for a in tt["args"]], tt, ff)
+        except (absint.Stuck, absint.Loop):
+            r = machine.NOT
+        if r is not machine.NOT:
+            return r
         return None
     oracle.fb = scripted.fb
     scripted.state = st
@@ -156,22 +168,26 @@ def run(ctx):
         ctx.report("C06-charclass", "comment/terminators", "comments end at %s (must include LF and be line endings)" % sorted(com_end), where_of(com))
     td = fb.find(LEX + "test_delimiter")
     delim = set()
+    from . import machine as _m
+    td_stuck = 0
     for c in ALPHABET:
         try:
-            k, b, e = absint.run_fragment(td, 0, {1: absint.UNKNOWN, 2: c}, oracle=lambda *a: None)
-            if getattr(e.get(0), "name", None) == "Ok":
+            r0 = _m.Machine(fb).run(td, [absint.UNKNOWN, c])
+            if getattr(r0, "name", None) == "Ok":
                 delim.add(c)
         except (absint.Stuck, absint.Loop):
-            pass
+            td_stuck += 1
     ctx.inst("C06-charclass", "test_delimiter/accepts", sorted(delim))
-    if delim != R7RS_DELIM:
+    if td_stuck:
+        ctx.undecided("C06-charclass", "test_delimiter/set", "the delimiter table could not be read for %d characters" % td_stuck, where_of(td))
+    elif delim != R7RS_DELIM:
         ctx.report("C06-charclass", "test_delimiter/set", "test_delimiter accepts %s, R7RS delimiters are %s (difference %s)" % (
             "".join(map(chr, sorted(delim))).__repr__(), "".join(map(chr, sorted(R7RS_DELIM))).__repr__(),
             sorted(delim ^ R7RS_DELIM)), where_of(td))
     dot_period = {pk for pk in ALPHABET if scripted(tn, [ord(".")], pk, lexenv())[0] == "tok:Period"}
     dot_eof = scripted(tn, [ord(".")], None, lexenv())[0]
     ctx.inst("C06-charclass", "dot/period-before", sorted(dot_period))
-    if dot_period != delim or dot_eof != "tok:Period":
+    if not td_stuck and (dot_period != delim or dot_eof != "tok:Period"):
         ctx.report("C06-charclass", "dot/delimiters", "`.` is a Period before %s but the delimiter set is %s (difference %s)" % (
             sorted(dot_period), sorted(delim), sorted(dot_period ^ delim)), where_of(tn))
     # digits and signs
@@ -255,30 +271,30 @@ def run(ctx):
                 if owner != adv.name and owner.startswith("parser::lexer::"):
                     ctx.report("C06-position", "consumer/" + owner, "%s consumes a character without Lexer::advance (position "
                                "not updated)" % owner, where_of(f, t))
-    nb = [b for b, t in adv.calls() if callee_matches(t, "<std::iter::Peekable as std::iter::Iterator>::next")]
-    loops = adv.loops()
-    if len(nb) != 1 or not loops:
-        ctx.report("C06-position", "advance/shape", "advance: shape not recognised", where_of(adv))
-    else:
-        head = loops[0][0]
-        for c, want in ((10, [6, 1]), (ord("a"), [5, 8]), (13, [5, 8]), (None, [5, 7])):
-            env = {1: [absint.UNKNOWN, absint.UNKNOWN, [5, 7]], 2: 1}
+    # decision table of advance(1) by abstract evaluation of the whole function (helpers followed): position after a character
+    from . import machine
+    lx = fb.adt("parser::lexer::Lexer")["variants"][0]["fields"]
+    li = next(i for i, fdef in enumerate(lx) if fdef["name"] == "location")
+    for c, want in ((10, [6, 1]), (ord("a"), [5, 8]), (13, [5, 8]), (None, [5, 7])):
+        lexer = [absint.UNKNOWN for _ in lx]
+        lexer[li] = [5, 7]
 
-            def oracle(ff, bb, tt, e, c=c):
-                if callee_matches(tt, "Iterator>::next"):
-                    return absint.Enum(0, []) if c is None else absint.Enum(1, [c])
-                return None
-            try:
-                k, b, e2 = absint.run_fragment(adv, nb[0], env, stops=[head], oracle=oracle)
-                loc = e2[1][2]
-                loc = [x if not isinstance(x, list) else x[0] for x in loc]
-            except (absint.Stuck, absint.Loop, Exception) as ex:
-                loc = "stuck:%s" % ex
-            ctx.inst("C06-position", "advance/%s" % ("EOF" if c is None else repr(chr(c))), {"from": [5, 7], "to": loc})
-            if loc != want:
-                ctx.report("C06-position", "advance/%s" % ("EOF" if c is None else ("LF" if c == 10 else "char")),
-                           "after %s the position goes from [5,7] to %s, expected %s" % (
-                               "end of input" if c is None else repr(chr(c)), loc, want), where_of(adv))
+        def icpt(mc, cn, a, tt, g, c=c):
+            if cn.endswith("Peekable as std::iter::Iterator>::next"):
+                return machine.none() if c is None else machine.some(c)
+            return machine.NOT
+        key = "advance/%s" % ("EOF" if c is None else ("LF" if c == 10 else ("CR" if c == 13 else "char")))
+        try:
+            machine.Machine(fb, intercept=icpt, max_visits=4).run(adv, [lexer, 1])
+            loc = [absint.deref(x) for x in lexer[li]] if isinstance(lexer[li], list) else lexer[li]
+        except (absint.Stuck, absint.Loop) as ex:
+            ctx.undecided("C06-position", key, "cannot follow advance (%s)" % ex, where_of(adv))
+            continue
+        ctx.inst("C06-position", key, {"from": [5, 7], "to": loc})
+        ctx.oblige(loc == want)
+        if loc != want:
+            ctx.report("C06-position", key, "after %s the position goes from [5,7] to %s, expected %s" % (
+                "end of input" if c is None else repr(chr(c)), loc, want), where_of(adv))
 
     # ------------------------------------------------------------------ C06-quote
     ctx.rule("C06-quote", "'x builds (quote x) and the evaluator routes that keyword to transform_quote")
